@@ -240,3 +240,4 @@ def run(ctx):
     tasks = leaf_tasks() + [(f"step:{'in' if ei else 'out'}:{'a2b' if ab else 'b2a'}", step_task(ei, ab))
                             for ei in (True, False) for ab in (True, False)]
     ctx.parallel(tasks, max_procs=9)
+    ctx.run_kani(['c02.rs'])     # 256-bit kernel contracts K1-K11 (+ K12 smoke checks)
